@@ -3,7 +3,8 @@
 # breaks and records whether the check reported a violation. /repo must be clean; it is restored after each.
 export GOFLAGS=-mod=mod GOPROXY=off GOSUMDB=off GOTOOLCHAIN=local
 if [ -n "$(git -C /repo status --porcelain)" ]; then echo "REFUSING: /repo has uncommitted changes"; exit 4; fi
-OUT=/verif/seeded/results.txt; : > $OUT
+OUT=/verif/seeded/results.txt
+if [ -n "$1" ]; then grep -v "^$1" $OUT > $OUT.keep 2>/dev/null; mv $OUT.keep $OUT; else : > $OUT; fi
 for D in /verif/seeded/*/; do
   N=$(basename $D); [ -f $D/patch.diff ] || continue
   if [ -n "$1" ] && [[ "$N" != $1* ]]; then continue; fi
@@ -13,8 +14,10 @@ for D in /verif/seeded/*/; do
   V=$(grep -c "^VIOLATION" /tmp/seeded_$N.out)
   FIRST=$(grep "^VIOLATION" /tmp/seeded_$N.out | head -1 | sed 's/.*obligation=//' | cut -c1-110)
   echo "$N $P exit=$RC violations=$V $FIRST" | tee -a $OUT
+  TOUCHED="$TOUCHED $P"
   git -C /repo checkout -- .
 done
 # refresh evidence: the evidence files are rewritten by every run, including the runs above on changed trees;
 # what is committed must describe the unchanged tree
-for P in $(cut -d' ' -f2 $OUT | sort -u); do /verif/bin/check $P --tier quick > /dev/null 2>&1 || echo "WARNING: check $P does not pass on the unchanged tree"; done
+sort -o $OUT $OUT
+for P in $(echo $TOUCHED | tr ' ' '\n' | sort -u); do /verif/bin/check $P --tier quick > /dev/null 2>&1 || echo "WARNING: check $P does not pass on the unchanged tree"; done
